@@ -446,6 +446,8 @@ def gen_lease(rng, knobs=None):
     k = dict(knobs or {})
     opts = {'mode': k.get('mode') or rng.choice(['tcp', 'msg']), 'frag': rng.choice([None, None, 64]), 'honor_lease_c': True,
             'lease_queue': rng.choice([0, 0, 0, 3]), 'read_buffer': rng.choice([7, 1024])}
+    if k.get('p_reconnect'):
+        opts['mode'] = 'tcp'        # (closing the old transport is only observable on the TCP transport of the harness)
     prog = [['start'], ['pump']]
     for _ in range(rng.randint(4, 16)):
         r = rng.random()
@@ -485,6 +487,18 @@ def gen_lease(rng, knobs=None):
                 prog.append(['pump'])
         else:
             prog.append(['pump'])
+    if k.get('end_with_loss'):
+        # the connection ends while requests may still be waiting for a lease: they are pending requests like any other (C11)
+        opts['mode'] = 'tcp'
+        opts['keepalive_ms'] = 100
+        end = rng.choice(['eof', 'error', 'close_c', 'close_s'])
+        if end in ('eof', 'error'):
+            prog.append(['cut', rng.choice(['s', 'c']), end])
+        else:
+            prog.append(['close', end[-1]])
+        prog.append(['settle'])
+        prog.append(['advance', 210])
+        prog.append(['settle'])
     prog.append(['finish'])
     return opts, prog
 
